@@ -325,7 +325,7 @@ theorem interrupt_repeat (nowMs : Nat) (hours : Int) (s : Store) (cut : Nat) :
 
 /-! ### the volume pass -/
 
-theorem mem_insertBy (x a : Meta) (l : List Meta) : a ∈ insertBy x l ↔ a = x ∨ a ∈ l := by
+theorem mem_insertBy (key : Meta → Nat) (x a : Meta) (l : List Meta) : a ∈ insertBy key x l ↔ a = x ∨ a ∈ l := by
   induction l with
   | nil => simp [insertBy]
   | cons y r ih =>
@@ -337,13 +337,13 @@ theorem mem_insertBy (x a : Meta) (l : List Meta) : a ∈ insertBy x l ↔ a = x
       · rintro (h | h | h) <;> simp [h]
       · rintro (h | h | h) <;> simp [h]
 
-theorem mem_volSort (a : Meta) (l : List Meta) : a ∈ volSort l ↔ a ∈ l := by
+theorem mem_sortBy (key : Meta → Nat) (a : Meta) (l : List Meta) : a ∈ sortBy key l ↔ a ∈ l := by
   induction l with
-  | nil => simp [volSort]
-  | cons x r ih => simp [volSort, mem_insertBy, ih]
+  | nil => simp [sortBy]
+  | cons x r ih => simp [sortBy, mem_insertBy, ih]
 
-theorem pairwise_insertBy (x : Meta) (l : List Meta) (h : l.Pairwise (fun a b => volKey a ≤ volKey b)) :
-    (insertBy x l).Pairwise (fun a b => volKey a ≤ volKey b) := by
+theorem pairwise_insertBy (key : Meta → Nat) (x : Meta) (l : List Meta) (h : l.Pairwise (fun a b => key a ≤ key b)) :
+    (insertBy key x l).Pairwise (fun a b => key a ≤ key b) := by
   induction l with
   | nil => simp [insertBy]
   | cons y r ih =>
@@ -361,37 +361,19 @@ theorem pairwise_insertBy (x : Meta) (l : List Meta) (h : l.Pairwise (fun a b =>
       apply List.pairwise_cons.mpr
       refine ⟨?_, ih hy.2⟩
       intro a ha
-      rcases (mem_insertBy x a r).mp ha with rfl | ha
+      rcases (mem_insertBy key x a r).mp ha with rfl | ha
       · omega
       · exact hy.1 a ha
 
-theorem pairwise_volSort (l : List Meta) : (volSort l).Pairwise (fun a b => volKey a ≤ volKey b) := by
+theorem pairwise_sortBy (key : Meta → Nat) (l : List Meta) : (sortBy key l).Pairwise (fun a b => key a ≤ key b) := by
   induction l with
-  | nil => simp [volSort]
-  | cons x r ih => exact pairwise_insertBy x _ ih
+  | nil => simp [sortBy]
+  | cons x r ih => exact pairwise_insertBy key x _ ih
 
-theorem volLoop_nil_of_none_fit (rem : Nat) (l : List Meta) (h : l.all (fun x => !decide (x.size < rem)) = true) :
-    volLoop rem l = [] := by
-  induction l with
-  | nil => rfl
-  | cons m r ih =>
-    simp only [List.all_cons, Bool.and_eq_true, Bool.not_eq_true', decide_eq_false_iff_not] at h
-    unfold volLoop
-    simp only [h.1, if_false]
-    exact ih h.2
+theorem mem_volSort (a : Meta) (l : List Meta) : a ∈ volSort l ↔ a ∈ l := mem_sortBy volKey a l
 
-theorem volLoop_eq_stop (rem : Nat) (l : List Meta) (h : noLateFit rem l = true) :
-    volLoop rem l = volLoopStop rem l := by
-  induction l generalizing rem with
-  | nil => rfl
-  | cons m r ih =>
-    unfold noLateFit at h
-    unfold volLoop volLoopStop
-    by_cases hf : m.size < rem
-    · simp only [hf, if_true] at h ⊢
-      rw [ih _ h]
-    · simp only [hf, if_false] at h ⊢
-      exact volLoop_nil_of_none_fit rem r h
+theorem pairwise_volSort (l : List Meta) : (volSort l).Pairwise (fun a b => volKey a ≤ volKey b) :=
+  pairwise_sortBy volKey l
 
 theorem volLoop_sublist (rem : Nat) (l : List Meta) : (volLoop rem l).Sublist l := by
   induction l generalizing rem with
@@ -400,27 +382,18 @@ theorem volLoop_sublist (rem : Nat) (l : List Meta) : (volLoop rem l).Sublist l 
     unfold volLoop
     split
     · exact (ih _).cons_cons m
-    · exact (ih _).cons m
-
-theorem volLoopStop_sublist (rem : Nat) (l : List Meta) : (volLoopStop rem l).Sublist l := by
-  induction l generalizing rem with
-  | nil => exact List.Sublist.slnil
-  | cons m r ih =>
-    unfold volLoopStop
-    split
-    · exact (ih _).cons_cons m
     · exact List.nil_sublist _
 
 /-- stopping at the first misfit deletes a prefix: nothing strictly older than a deleted segment stays -/
-theorem volLoopStop_closed (f : Meta → Nat) (rem : Nat) (l : List Meta)
+theorem volLoop_closed (f : Meta → Nat) (rem : Nat) (l : List Meta)
     (hs : l.Pairwise (fun a b => f a ≤ f b)) :
-    ∀ a ∈ volLoopStop rem l, ∀ b ∈ l, f b < f a → b ∈ volLoopStop rem l := by
+    ∀ a ∈ volLoop rem l, ∀ b ∈ l, f b < f a → b ∈ volLoop rem l := by
   induction l generalizing rem with
   | nil => intro a ha; cases ha
   | cons m r ih =>
     have hc := List.pairwise_cons.mp hs
     intro a ha b hb hlt
-    unfold volLoopStop at ha ⊢
+    unfold volLoop at ha ⊢
     by_cases hf : m.size < rem
     · simp only [hf, if_true] at ha ⊢
       rcases List.mem_cons.mp hb with hbm | hbr
@@ -431,7 +404,18 @@ theorem volLoopStop_closed (f : Meta → Nat) (rem : Nat) (l : List Meta)
     · simp only [hf, if_false] at ha
       cases ha
 
-/-- the marking loop never marks as much as the excess -/
+/-- the marking loop marks a prefix of its input … -/
+theorem volLoop_prefix (rem : Nat) (l : List Meta) : ∃ n, volLoop rem l = l.take n := by
+  induction l generalizing rem with
+  | nil => exact ⟨0, rfl⟩
+  | cons m r ih =>
+    unfold volLoop
+    split
+    · obtain ⟨n, hn⟩ := ih (rem - m.size)
+      exact ⟨n + 1, by rw [hn]; rfl⟩
+    · exact ⟨0, rfl⟩
+
+/-- … and never marks as much as the excess -/
 theorem volLoop_total_lt (rem : Nat) (l : List Meta) (h : 0 < rem) : totalSize (volLoop rem l) < rem := by
   induction l generalizing rem with
   | nil => simpa [volLoop, totalSize] using h
@@ -442,6 +426,6 @@ theorem volLoop_total_lt (rem : Nat) (l : List Meta) (h : 0 < rem) : totalSize (
       have := ih (rem - m.size) (by omega)
       simp only [totalSize, List.map_cons, List.sum_cons] at this ⊢
       omega
-    · exact ih rem h
+    · simpa [totalSize] using h
 
 end SigModel.Lemmas.C14
